@@ -24,7 +24,7 @@ EXPRESSIONS are put into A-normal form in CPython's evaluation order: an operati
   `getattr(o, "k", d)` / `hasattr(o, "k")` on a parameter (an `argparse.Namespace` is the dict of its attributes), `str(e)` / `e.code` of
   a caught exception.  A later operand of `and`/`or`/`if-else` that can raise is `Unsupported`.
 STATEMENTS (continuation style; a function body is one term): `x = e`, `x: T = e`, `a, b = e`, `return e`, `return a, b`, `pass`,
-  `raise Cls("…") [from e]`, bare `raise` in a handler, `if`/`else` (the statements after an `if` that can fall through are copied into
+  `raise Cls("…") [from e]` (the class only: the message of a raised literal is not represented), bare `raise` in a handler, `if`/`else` (the statements after an `if` that can fall through are copied into
   the branches), `xs.append(e)` on a local bound to a list display (`PyX.append`: the list afterwards), an expression statement that calls
   an external;
   `try: B except C1 [as e]: H1 except C2: H2` — `PyX.tryCatch` (first handler that catches by `isinstance`); when the statement can fall
@@ -306,6 +306,20 @@ class CliTranslator:
                 return f"(PyVal.str {self.var(e.args[0].id)}.msg)"
             if n == "isinstance" and len(e.args) == 2 and isinstance(e.args[1], ast.Name) and e.args[1].id in ("dict", "list", "str", "bool", "int", "float"):
                 return f'(Rbacx.Py.isInstance {self.E(e.args[0], binds)} "{e.args[1].id}")'
+            if n == "any" and len(e.args) == 1 and isinstance(e.args[0], ast.GeneratorExp) and len(e.args[0].generators) == 1:
+                g = e.args[0].generators[0]
+                if g.ifs or g.is_async or not isinstance(g.target, ast.Name) or not isinstance(g.iter, ast.Name):
+                    raise Unsupported("generator " + ast.unparse(e))
+                it = self.E(g.iter, binds)
+                saved = set(self.locals)
+                self.locals.add(g.target.id)
+                inner: list = []
+                body = self.E(e.args[0].elt, inner)
+                self.locals = saved
+                if inner:
+                    raise Unsupported("an element of any(…) that can raise")
+                # the iterable is a list of strings or falsy where the source asks (`argv and any(… for a in argv)`): no TypeError is represented
+                return f"(Rbacx.Py.anyOf {it} fun {self.var(g.target.id)} => {body})"
             if n in ("list", "int") and len(e.args) == 1 and not e.keywords:
                 x = self.E(e.args[0], binds)
                 t = self.fresh()
@@ -420,8 +434,8 @@ class CliTranslator:
             if isinstance(x, ast.Name) and x.id in self.exc_vars:
                 return f"{ind}.error {self.var(x.id)}\n"
             if isinstance(x, ast.Call) and isinstance(x.func, ast.Name) and all(isinstance(a, ast.Constant) for a in x.args) and not x.keywords:
-                msg = x.args[0].value if len(x.args) == 1 and isinstance(x.args[0].value, str) else ""
-                return f'{ind}.error {{ cls := {lean_str(x.func.id)}, msg := {lean_str(msg)} }}\n'
+                # the message of a raised literal is not represented (`msg := ""`): the model speaks about exception classes
+                return f'{ind}.error {{ cls := {lean_str(x.func.id)} }}\n'
             raise Unsupported("raise " + ast.unparse(st))
         if isinstance(st, ast.If):
             c = self.E(st.test, binds)
@@ -604,5 +618,12 @@ def translate(sources: list[tuple[str, list[str], Cfg]]) -> dict:
     return out
 
 
-def translate_main(src: str, cfg: Cfg) -> dict:
-    raise Unsupported("main: not translated yet")
+def translate_main(src: str, cfg: Cfg, sigs: dict | None = None) -> dict:
+    """`main` of cli.py, a stage of its own (the plugin keeps the command functions translated when `main` leaves the subset)"""
+    tree = ast.parse(src)
+    tr = CliTranslator(cfg, module_consts(tree))
+    tr.sigs = dict(sigs or {})
+    fns = {n.name: n for n in tree.body if isinstance(n, ast.FunctionDef)}
+    if "main" not in fns:
+        raise Unsupported("function main not found")
+    return {"main": tr.function(fns["main"])}
